@@ -47,6 +47,7 @@ def cases_for(rng, n, per):
 def run(rep):
     rng = random.Random(rep.seed)
     quick = rep.tier == "quick"
+    P.replay_witnesses(rep, PID)
     rep.rule = ("S->I: every grammar of the MC_Peg 'asg' universe (assignment operators = += *= ?= on two attributes "
                 "combined by sequence, choice, optional, repetition, unordered group) x every input of <= 4 symbols; "
                 "I->S: seeded-random grammars assigning the same attribute repeatedly, inputs with falsy values. "
